@@ -27,7 +27,18 @@ def main():
         if not os.path.exists(exe):
             print('missing ' + exe)
             return 1
-    print('setup ok: bfg9000 from', where or '/repo (reinstalled)')
+    sys.path.insert(0, os.path.dirname(os.path.dirname(
+        os.path.abspath(__file__))))
+    from bfgsim import refninja_selftest
+    failures = refninja_selftest.run_all()
+    if failures:
+        print('reference ninja self-tests failed:')
+        for f in failures:
+            print('  ' + f)
+        return 1
+    print('setup ok: bfg9000 from', where or '/repo (reinstalled)',
+          '- reference ninja self-tests passed ({})'.format(
+              len(refninja_selftest.TESTS)))
     return 0
 
 
